@@ -137,6 +137,7 @@ class World:
         self.evs: List[dict] = []
         self.calls: List[list] = []
         self.uuid: Dict[int, Any] = {}
+        self.foreign_pending = False
         self.listeners: Dict[int, Any] = {}
         self.tap_events: List[Any] = []
         # the harness' own tap sees every event (registered first, never removed); it is callback id 0 in the traces
@@ -293,7 +294,14 @@ class World:
             sent.append({"dev": msg.device, "vec": msg.name, "kind": kind, "els": els})
         del self.client.sent[:]
         obs["sent"] = sent
-        obs.update({"evs": [self.ev_rec(e) for e in self.tap_events], "calls": [list(c) for c in self.calls], "ntasks": ntasks,
+        # events of kinds the properties do not speak about (a library may add kinds, e.g. for deletions) are outside the model
+        known_calls = [list(c) for c in self.calls if c[1]["ty"] != "Base"]
+        if any(self.ev_rec(e)["ty"] == "Base" for e in self.tap_events):
+            self.foreign_pending = True         # coroutine callbacks may have been scheduled for such events: the task count is not comparable
+        obs["exact_tasks"] = not self.foreign_pending
+        if op["o"] == "tick":
+            self.foreign_pending = False
+        obs.update({"evs": [r_ for r_ in (self.ev_rec(e) for e in self.tap_events) if r_["ty"] != "Base"], "calls": known_calls, "ntasks": ntasks,
                     "raised": raised, "alive": not self.task.done() and not self.task2.done()})
         rec = {k: op[k] for k in op if k not in ("m", "m2")}
         for mk in ("m", "m2"):
